@@ -72,6 +72,9 @@ func concPlaceTemplate(clock *Clock, dbPath string) error {
 }
 
 func concOpen(cfg QConfig, clock *Clock, dbPath string) (queue.Store, func() error, error) {
+	if cfg.Backend == "memory" {
+		return openStore(cfg, clock, "")
+	}
 	if err := concPlaceTemplate(clock, dbPath); err != nil {
 		return nil, nil, err
 	}
@@ -243,9 +246,45 @@ func (v *concView) exec(s Step, prefix bool) string {
 // message and attempt it belongs to; if the lease id is one a dequeue of this
 // run returned, it has to be that dequeue's.
 func concListing(e *concEnv, st queue.Store) (string, error) {
+	if ms, ok := st.(*queue.MemoryStore); ok {
+		items, leases := ms.VerifSnapshot()
+		var rows []string
+		for _, it := range items {
+			lease := "-"
+			if it.LeaseID != "" {
+				lease = fmt.Sprintf("L(%s#%d)", it.ID, it.Attempt)
+				e.mu.Lock()
+				if n, ok := e.names[it.LeaseID]; ok && n != lease {
+					lease += "!=" + n
+				}
+				e.mu.Unlock()
+				if leases[it.LeaseID] != it.ID {
+					lease += "!=table"
+				}
+			}
+			rows = append(rows, fmt.Sprintf("%s|%s|%s|%s|a%d|recv=%s|next=%s|%s|until=%s|%q|%s", it.ID, it.Route, it.Target, it.State, it.Attempt, off(it.ReceivedAt), off(it.NextRunAt), lease, off(it.LeaseUntil), it.DeadReason, it.Payload))
+		}
+		// the lease table holds exactly the leases of the stored messages
+		stray := 0
+		for lid, mid := range leases {
+			found := false
+			for _, it := range items {
+				if it.ID == mid && it.LeaseID == lid {
+					found = true
+				}
+			}
+			if !found {
+				stray++
+			}
+		}
+		if stray > 0 {
+			rows = append(rows, fmt.Sprintf("!=%d stray lease table entries", stray))
+		}
+		return "{" + strings.Join(rows, "; ") + "}", nil
+	}
 	s, ok := st.(*queue.SQLiteStore)
 	if !ok {
-		return "", fmt.Errorf("conc world needs the SQLite store")
+		return "", fmt.Errorf("conc world needs the SQLite or the memory store")
 	}
 	rs, err := s.VerifDB().QueryContext(context.Background(), `SELECT id, route, target, state, attempt, received_at, next_run_at, COALESCE(lease_id,''), COALESCE(lease_until,0), COALESCE(dead_reason,''), payload FROM queue_items ORDER BY id;`)
 	if err != nil {
@@ -309,7 +348,9 @@ func concReference(p *Program, prefix []Step, order []*concRec, ntasks int) conc
 	clock := NewClock(Epoch.Add(time.Duration(p.Offset)))
 	clock.Install()
 	cfg := p.Store
-	cfg.Backend = "sqlite"
+	if cfg.Backend != "memory" {
+		cfg.Backend = "sqlite"
+	}
 	st, closeFn, err := concOpen(cfg, clock, filepath.Join(dir, "q.db"))
 	if err != nil {
 		return concRefResult{trouble: "reference store: " + err.Error()}
@@ -386,8 +427,10 @@ func concOrders(recs []*concRec, limit int) [][]*concRec {
 // RunConcProgram executes a W-conc program.
 func RunConcProgram(p *Program) *Result {
 	res := &Result{}
-	if err := InstallSimDisk(); err != nil {
-		return &Result{Trouble: "simdisk: " + err.Error()}
+	if p.Store.Backend != "memory" {
+		if err := InstallSimDisk(); err != nil {
+			return &Result{Trouble: "simdisk: " + err.Error()}
+		}
 	}
 	if len(p.Steps) == 0 || p.Steps[len(p.Steps)-1].Op != "conc" {
 		// minimisation may have removed the block: nothing to judge
@@ -506,17 +549,27 @@ func runConcOnce(p *Program, prefix []Step, block Step, cache map[string]concRef
 	}
 	defer os.RemoveAll(base)
 	cfg := p.Store
-	cfg.Backend = "sqlite"
+	memory := cfg.Backend == "memory"
+	if !memory {
+		cfg.Backend = "sqlite"
+	}
 	clock := NewClock(Epoch.Add(time.Duration(p.Offset)))
 	clock.Install()
 	dir := filepath.Join(base, "gen1")
 	if err := os.MkdirAll(dir, 0o755); err != nil {
 		return &Result{Trouble: err.Error()}, nil
 	}
-	if err := concPlaceTemplate(clock, filepath.Join(dir, "q.db")); err != nil {
-		return &Result{Trouble: "template: " + err.Error()}, nil
+	if !memory {
+		if err := concPlaceTemplate(clock, filepath.Join(dir, "q.db")); err != nil {
+			return &Result{Trouble: "template: " + err.Error()}, nil
+		}
 	}
+	// the memory backend has no disk: the Disk object only counts (never sees an
+	// operation, never dies), crash options of the block are ignored
 	disk := NewDisk(dir)
+	if memory {
+		block.CrashAt, block.CrashStep, block.CrashAfterTask, block.Image = nil, nil, nil, ""
+	}
 	st, closeFn, err := openStore(cfg, clock, filepath.Join(dir, "q.db"))
 	if err != nil {
 		disk.Release()
@@ -530,7 +583,7 @@ func runConcOnce(p *Program, prefix []Step, block Step, cache map[string]concRef
 			disk.Release()
 		}
 	}()
-	res.logf("conc world max_depth=%d policy=%s retention=%s/%s delivered=%s dlq=%s/%d", cfg.MaxDepth, cfg.DropPolicy, cfg.RetentionMaxAge, cfg.PruneInterval, cfg.DeliveredMaxAge, cfg.DLQMaxAge, cfg.DLQMaxDepth)
+	res.logf("conc world backend=%s max_depth=%d policy=%s retention=%s/%s delivered=%s dlq=%s/%d", cfg.Backend, cfg.MaxDepth, cfg.DropPolicy, cfg.RetentionMaxAge, cfg.PruneInterval, cfg.DeliveredMaxAge, cfg.DLQMaxAge, cfg.DLQMaxDepth)
 	env := &concEnv{store: st, clock: clock, names: map[string]string{}}
 	pv := &concView{env: env}
 	for _, s := range prefix {
@@ -547,7 +600,12 @@ func runConcOnce(p *Program, prefix []Step, block Step, cache map[string]concRef
 	sched := NewSched()
 	sched.DetectBlocked = true
 	sched.Watchdog = 120 * time.Second
-	sched.SetArmed(func(label string) bool { return strings.HasPrefix(label, "queue.SQLiteStore.") })
+	sched.SetArmed(func(label string) bool {
+		if memory {
+			return strings.HasPrefix(label, "queue.MemoryStore.")
+		}
+		return strings.HasPrefix(label, "queue.SQLiteStore.")
+	})
 	sched.Install()
 	defer UninstallSched()
 
@@ -839,6 +897,7 @@ func compressTrace(tr []string) string {
 // ---- generator ----
 
 type ConcProfile struct {
+	Memory int // memory backend probability in tenths (no crashes there)
 	Crash  int // crash probability in tenths
 	Limits int // small max_depth (reject / drop_oldest) probability in tenths
 	Sweep  int // programs whose block is swept over all single-preemption schedules, per mille
@@ -847,6 +906,9 @@ type ConcProfile struct {
 func GenConcProgram(t *rapid.T, prof ConcProfile) *Program {
 	p := &Program{World: "conc"}
 	p.Store = QConfig{Backend: "sqlite"}
+	if prof.Memory > 0 && rapid.IntRange(0, 9).Draw(t, "memory?") < prof.Memory {
+		p.Store.Backend = "memory"
+	}
 	if rapid.IntRange(0, 9).Draw(t, "retention?") < 7 {
 		p.Store.RetentionMaxAge = time.Hour
 		p.Store.PruneInterval = time.Second
